@@ -292,6 +292,33 @@ theorem itoa_digits (a : Nat) : (itoa a).toList.all Char.isDigit = true := by
 theorem ofDigitChars_itoa (a : Nat) : Nat.ofDigitChars 10 (itoa a).toList 0 = a := by
   rw [itoa_toList]; simp
 
+theorem toDigits_head_ne_zero : ∀ (n : Nat), 1 ≤ n → ∀ c rest, Nat.toDigits 10 n = c :: rest → c ≠ '0' := by
+  intro n
+  induction n using Nat.strongRecOn with
+  | _ n ih =>
+    intro hn c rest h
+    by_cases hlt : n < 10
+    · rw [Nat.toDigits_of_lt_base hlt] at h
+      injection h with h _
+      subst h
+      have : n = 1 ∨ n = 2 ∨ n = 3 ∨ n = 4 ∨ n = 5 ∨ n = 6 ∨ n = 7 ∨ n = 8 ∨ n = 9 := by omega
+      rcases this with h | h | h | h | h | h | h | h | h <;> subst h <;> decide
+    · rw [Nat.toDigits_of_base_le (by decide) (by omega)] at h
+      cases hd : Nat.toDigits 10 (n / 10) with
+      | nil => exact absurd hd Nat.toDigits_ne_nil
+      | cons c' r' =>
+        rw [hd] at h
+        simp at h
+        exact h.1 ▸ ih (n / 10) (by omega) (by omega) c' r' hd
+
+/-- the decimal string of a number has no leading zero (unless it is "0") -/
+theorem itoa_canonical (n : Nat) (c : Char) (rest : List Char) (h : (itoa n).toList = c :: rest)
+    (hr : rest ≠ []) : c ≠ '0' := by
+  rw [itoa_toList] at h
+  cases n with
+  | zero => simp at h; exact absurd h.2 hr
+  | succ k => exact toDigits_head_ne_zero (k + 1) (by omega) c rest h
+
 end RegexVerif.Groups
 
 namespace RegexVerif.Groups
@@ -415,7 +442,17 @@ theorem scanEvent_inv {cfg : Cfg} {e : Event} {s s' : PState} (h : scanEvent cfg
     (hc : CapsInv s) (hn : NamesInv s) : CapsInv s' ∧ NamesInv s' := by
   cases e with
   | noncap => simp [scanEvent] at h; subst h; exact ⟨hc, hn⟩
-  | numbered0 k => simp [scanEvent] at h; subst h; exact ⟨hc, hn⟩
+  | numbered0 k =>
+    simp only [scanEvent] at h
+    by_cases he : cfg.ecma
+    · simp [he] at h; subst h; exact ⟨hc, hn⟩
+    · simp only [he] at h
+      by_cases ho : cfg.ord
+      · simp only [ho, if_true] at h
+        exact noteName_inv (by simpa using h) hc hn
+      · simp [ho] at h; subst h
+        have hnm := noteSlot_names k s
+        exact ⟨capsInv_noteSlot k hc, ⟨by rw [hnm.1, hnm.2.1]; exact hn.keys, by rw [hnm.2.1]; exact hn.nodup⟩⟩
   | unnamed =>
     simp only [scanEvent] at h
     by_cases hx : cfg.explicitCapture
@@ -629,7 +666,7 @@ theorem usedNumbers_spec {caps : List Nat} {captop : Nat} (hnd : caps.Nodup) (hb
     · intro hk; have := hb k hk; omega
 
 /-- consistency of the tables the pre-scan hands over -/
-structure TInv (ecma : Bool) (t : Tables) : Prop where
+structure TInv (good : Prop) (ecma : Bool) (t : Tables) : Prop where
   nodup : t.caps.Nodup
   zero : 0 ∈ t.caps
   bound : ∀ c ∈ t.caps, c < t.captop
@@ -637,10 +674,15 @@ structure TInv (ecma : Bool) (t : Tables) : Prop where
   both : t.caplist = none ↔ t.capnames = none
   dense_of_none : t.caplist = none → t.capnumlist = none
   len : ∀ cl, t.caplist = some cl → cl.length = t.caps.length
-  name_num : ∀ cl cn, t.caplist = some cl → t.capnames = some cn → ∀ (i : Nat) (nm : String),
+  /-- (`good`: no written name is a decimal number — fails only for `(?<k>…)` in pattern-order mode) -/
+  name_num : good → ∀ cl cn, t.caplist = some cl → t.capnames = some cn → ∀ (i : Nat) (nm : String),
       cl[i]? = some nm → nm ≠ "" → cn.lookup nm = (usedNumbers t.caps t.captop)[i]?
-  nonempty : ecma = false → ∀ cl, t.caplist = some cl → "" ∉ cl
+  nonempty : good → ecma = false → ∀ cl, t.caplist = some cl → "" ∉ cl
   values : ∀ cn, t.capnames = some cn → ∀ nm k, cn.lookup nm = some k → k ∈ t.caps
+
+theorem TInv.imp {g g' : Prop} {e : Bool} {t : Tables} (h : g' → g) (ht : TInv g e t) : TInv g' e t :=
+  ⟨ht.nodup, ht.zero, ht.bound, ht.cnl, ht.both, ht.dense_of_none, ht.len, fun hg => ht.name_num (h hg),
+   fun hg => ht.nonempty (h hg), ht.values⟩
 
 theorem capnumlistOf_getD (s : PState) :
     (capnumlistOf s).getD (List.range s.caps.length) = usedNumbers s.caps s.captop := by
@@ -650,7 +692,7 @@ theorem capnumlistOf_getD (s : PState) :
 theorem finishNames_inv (s : PState) (hc : CapsInv s) (hn : NamesInv s)
     (hgood : ∀ nm ∈ s.capnamelist, nm ≠ "" ∧ ∀ k : Nat, nm ≠ itoa k)
     (hvals : ∀ cn, s.capnames = some cn → ∀ nm ∈ s.capnamelist, ∃ k, cn.lookup nm = some k ∧ k ∈ s.caps) :
-    TInv false (finishNames s) ∧ (finishNames s).caps = s.caps ∧ (finishNames s).captop = s.captop ∧
+    TInv True false (finishNames s) ∧ (finishNames s).caps = s.caps ∧ (finishNames s).captop = s.captop ∧
     (∀ cn nm, s.capnames = some cn → nm ∈ s.capnamelist →
         ((finishNames s).capnames.bind fun c => c.lookup nm) = cn.lookup nm) := by
   obtain ⟨hu1, hu2, hu3, hu4⟩ := usedNumbers_spec hc.nodup hc.bound
@@ -669,10 +711,10 @@ theorem finishNames_inv (s : PState) (hc : CapsInv s) (hn : NamesInv s)
       (nodup_of_pairwise_lt hu1) hgood rfl
     refine ⟨⟨hc.nodup, hc.zero, hc.bound, hcnl, by simp, by simp, ?_, ?_, ?_, ?_⟩, rfl, rfl, ?_⟩
     · intro cl hcl; simp at hcl; subst hcl; rw [m1, hu2]
-    · intro cl cn hcl hcn i nm hi _
+    · intro _ cl cn hcl hcn i nm hi _
       simp at hcl hcn; subst hcl; subst hcn
       exact m2 i nm hi
-    · intro _ cl hcl; simp at hcl; subst hcl; exact m5
+    · intro _ _ cl hcl; simp at hcl; subst hcl; exact m5
     · intro cn hcn nm k hk
       simp at hcn; subst hcn
       rcases m4 nm k hk with h | h
@@ -701,7 +743,7 @@ namespace RegexVerif.Groups
 
 theorem assignNameSlots_inv (s0 : PState) (hc : CapsInv s0) (hn : NamesInv s0)
     (hgood : ∀ nm ∈ s0.capnamelist, nm ≠ "" ∧ ∀ k : Nat, nm ≠ itoa k) :
-    TInv false (assignNameSlots s0) ∧ (∀ c ∈ s0.caps, c ∈ (assignNameSlots s0).caps) ∧
+    TInv True false (assignNameSlots s0) ∧ (∀ c ∈ s0.caps, c ∈ (assignNameSlots s0).caps) ∧
     (∀ nm ∈ s0.capnamelist, ∃ k, ((assignNameSlots s0).capnames.bind fun c => c.lookup nm) = some k ∧
         k ∈ (assignNameSlots s0).caps) := by
   unfold assignNameSlots
@@ -787,7 +829,12 @@ theorem scanEvent_ordInv {cfg : Cfg} (ho : cfg.ord = true) {e : Event} {s s' : P
     (h : scanEvent cfg s e = some s') (hi : OrdInv s) : OrdInv s' := by
   cases e with
   | noncap => simp [scanEvent] at h; subst h; exact hi
-  | numbered0 k => simp [scanEvent] at h; subst h; exact hi
+  | numbered0 k =>
+    simp only [scanEvent] at h
+    by_cases he : cfg.ecma = true
+    · rw [if_pos he] at h; injection h with h; subst h; exact hi
+    · rw [if_neg he, if_pos ho] at h
+      exact noteName_ordInv ho h hi
   | unnamed =>
     simp only [scanEvent] at h
     by_cases hx : cfg.explicitCapture = true
@@ -814,7 +861,7 @@ theorem scanEvents_ordInv {cfg : Cfg} (ho : cfg.ord = true) : ∀ (evs : List Ev
 /-- where the names in `capnamelist` come from -/
 theorem scanEvents_names {cfg : Cfg} : ∀ (evs : List Event) {s s' : PState}, scanEvents cfg evs s = some s' →
     ∀ nm ∈ s'.capnamelist, nm ∈ s.capnamelist ∨ Event.named nm ∈ evs ∨
-      ∃ k, Event.numbered k ∈ evs ∧ nm = itoa k ∧ cfg.ord = true
+      ∃ k, (Event.numbered k ∈ evs ∨ Event.numbered0 k ∈ evs) ∧ nm = itoa k ∧ cfg.ord = true
   | [], s, s', h, nm, hnm => by simp [scanEvents] at h; subst h; exact Or.inl hnm
   | e :: es, s, s', h, nm, hnm => by
     simp only [scanEvents] at h
@@ -840,7 +887,19 @@ theorem scanEvents_names {cfg : Cfg} : ∀ (evs : List Event) {s s' : PState}, s
       · -- nm was in the list after the first event
         cases e with
         | noncap => simp [scanEvent] at h1; subst h1; exact Or.inl hr
-        | numbered0 k => simp [scanEvent] at h1; subst h1; exact Or.inl hr
+        | numbered0 k =>
+          simp only [scanEvent] at h1
+          by_cases he : cfg.ecma = true
+          · rw [if_pos he] at h1; injection h1 with h1; subst h1; exact Or.inl hr
+          · rw [if_neg he] at h1
+            by_cases ho : cfg.ord = true
+            · rw [if_pos ho] at h1
+              rcases hname (itoa k) s1 h1 nm hr with h' | h'
+              · exact Or.inl h'
+              · exact Or.inr (Or.inr ⟨k, by simp, h', ho⟩)
+            · rw [if_neg ho] at h1
+              injection h1 with h1; subst h1
+              rw [(noteSlot_names _ _).2.1] at hr; exact Or.inl hr
         | unnamed =>
           simp only [scanEvent] at h1
           split at h1
@@ -865,7 +924,7 @@ theorem scanEvents_names {cfg : Cfg} : ∀ (evs : List Event) {s s' : PState}, s
               injection h1 with h1; subst h1
               rw [(noteSlot_names _ _).2.1] at hr; exact Or.inl hr
       · exact Or.inr (Or.inl (by simp [hr]))
-      · exact Or.inr (Or.inr ⟨k, by simp [hk], hk', hko⟩)
+      · exact Or.inr (Or.inr ⟨k, by rcases hk with hk | hk <;> simp [hk], hk', hko⟩)
 
 end RegexVerif.Groups
 
@@ -971,9 +1030,47 @@ theorem fillNames_spec : ∀ (slots : List Nat) (cl : List String) (cn : List (S
         · exact Or.inl h
         · exact Or.inr (by simp [h])
 
-theorem assignOrderedNameSlots_inv (cfg : Cfg) (s : PState) (hc : CapsInv s) (hn : NamesInv s) (ho : OrdInv s)
-    (hgood : ∀ nm ∈ s.capnamelist, nm ≠ "" ∧ ∀ k : Nat, nm ≠ itoa k) :
-    TInv cfg.ecma (assignOrderedNameSlots cfg s) ∧ (assignOrderedNameSlots cfg s).caps = s.caps ∧
+/-- what the second loop does to the map, whatever the names are -/
+theorem fillNames_basic : ∀ (slots : List Nat) (cl : List String) (cn : List (String × Nat)),
+    slots.length = cl.length →
+    (fillNames slots cl cn).1.length = cl.length ∧
+    (∀ nm k, cn.lookup nm = some k → (fillNames slots cl cn).2.lookup nm = some k) ∧
+    (∀ nm k, (fillNames slots cl cn).2.lookup nm = some k → cn.lookup nm = some k ∨ k ∈ slots)
+  | [], [], cn, _ => by simp [fillNames]
+  | [], _ :: _, cn, hl => by simp at hl
+  | _ :: _, [], cn, hl => by simp at hl
+  | slot :: slots, nm :: cl, cn, hl => by
+    simp only [fillNames]
+    by_cases hsome : (cn.lookup (if nm = "" then itoa slot else nm)).isSome = true
+    · simp only [hsome, if_true]
+      obtain ⟨r1, r4, r5⟩ := fillNames_basic slots cl cn (by simpa using hl)
+      refine ⟨by simp [r1], r4, ?_⟩
+      intro x k hk
+      rcases r5 x k hk with h | h
+      · exact Or.inl h
+      · exact Or.inr (by simp [h])
+    · simp only [hsome, Bool.false_eq_true, if_false]
+      have hnone : cn.lookup (if nm = "" then itoa slot else nm) = none := by
+        cases h : cn.lookup (if nm = "" then itoa slot else nm) with
+        | none => rfl
+        | some v => simp [h] at hsome
+      obtain ⟨r1, r4, r5⟩ := fillNames_basic slots cl (cn ++ [(if nm = "" then itoa slot else nm, slot)]) (by simpa using hl)
+      refine ⟨by simp [r1], fun x k hk => r4 x k (lookup_append_of_some hk), ?_⟩
+      intro x k hk
+      rcases r5 x k hk with h | h
+      · cases hl' : cn.lookup x with
+        | none =>
+          rw [lookup_append_of_none hl'] at h
+          by_cases hx : x = (if nm = "" then itoa slot else nm)
+          · rw [hx] at h; simp at h; exact Or.inr (by simp [h])
+          · have : (x == (if nm = "" then itoa slot else nm)) = false := by simp [hx]
+            simp [List.lookup_cons, this] at h
+        | some k' => rw [lookup_append_of_some hl'] at h; exact Or.inl h
+      · exact Or.inr (by simp [h])
+
+theorem assignOrderedNameSlots_inv (cfg : Cfg) (s : PState) (hc : CapsInv s) (hn : NamesInv s) (ho : OrdInv s) :
+    TInv (∀ nm ∈ s.capnamelist, nm ≠ "" ∧ ∀ k : Nat, nm ≠ itoa k) cfg.ecma (assignOrderedNameSlots cfg s) ∧
+    (assignOrderedNameSlots cfg s).caps = s.caps ∧
     (∀ nm ∈ s.capnamelist, ((assignOrderedNameSlots cfg s).capnames.bind fun c => c.lookup nm) =
         (s.capnames.bind fun c => c.lookup nm)) := by
   have hlen : s.caps.length = s.captop := by rw [ho.caps, ho.captop]; simp
@@ -1001,8 +1098,9 @@ theorem assignOrderedNameSlots_inv (cfg : Cfg) (s : PState) (hc : CapsInv s) (hn
       cases hcn : s.capnames with
       | none => simp [hcn] at hk
       | some c => simp [hcn] at hk; rw [ho.caps]; simp; exact ho.vals c hcn nm k hk
-    have hdigit : ∀ j : Nat, (s.capnames.getD []).lookup (itoa j) = none := by
-      intro j
+    have hdigit : (∀ nm ∈ s.capnamelist, nm ≠ "" ∧ ∀ k : Nat, nm ≠ itoa k) →
+        ∀ j : Nat, (s.capnames.getD []).lookup (itoa j) = none := by
+      intro hgood j
       cases hl : (s.capnames.getD []).lookup (itoa j) with
       | none => rfl
       | some v =>
@@ -1013,7 +1111,7 @@ theorem assignOrderedNameSlots_inv (cfg : Cfg) (s : PState) (hc : CapsInv s) (hn
     · rw [if_pos he]
       refine ⟨⟨hc.nodup, hc.zero, hc.bound, hcnl'.symm, by simp, by simp, ?_, ?_, by simp [he], ?_⟩, rfl, ?_⟩
       · intro cl hcl; simp at hcl; subst hcl; exact p1
-      · intro cl cn hcl hcn i nm hi hne
+      · intro _ cl cn hcl hcn i nm hi hne
         simp at hcl hcn; subst hcl; subst hcn
         rw [hused, p2 i nm hi hne]
         have hlt : i < s.caps.length := by
@@ -1024,21 +1122,26 @@ theorem assignOrderedNameSlots_inv (cfg : Cfg) (s : PState) (hc : CapsInv s) (hn
         cases hcn : s.capnames <;> simp
     · rw [if_neg he]
       have hef : cfg.ecma = false := by simpa using he
-      obtain ⟨f1, f2, f3, f4, f5⟩ := fillNames_spec (List.range s.caps.length)
-        (placeNames none (s.capnames.getD []) s.capnamelist (List.replicate s.caps.length "")) (s.capnames.getD [])
-        (by simp [p1]) List.nodup_range
-        (by intro i nm hi hne
-            rw [p2 i nm hi hne]
-            have hlt : i < s.caps.length := by
-              have := (List.getElem?_eq_some_iff.mp hi).1; omega
-            simp [List.getElem?_range hlt])
-        (fun j _ => hdigit j)
+      have hp1 : (List.range s.caps.length).length =
+          (placeNames none (s.capnames.getD []) s.capnamelist (List.replicate s.caps.length "")).length := by simp [p1]
+      obtain ⟨f1, f4, f5⟩ := fillNames_basic (List.range s.caps.length)
+        (placeNames none (s.capnames.getD []) s.capnamelist (List.replicate s.caps.length "")) (s.capnames.getD []) hp1
+      have hspec := fun (hgood : ∀ nm ∈ s.capnamelist, nm ≠ "" ∧ ∀ k : Nat, nm ≠ itoa k) =>
+        fillNames_spec (List.range s.caps.length)
+          (placeNames none (s.capnames.getD []) s.capnamelist (List.replicate s.caps.length "")) (s.capnames.getD [])
+          hp1 List.nodup_range
+          (by intro i nm hi hne
+              rw [p2 i nm hi hne]
+              have hlt : i < s.caps.length := by
+                have := (List.getElem?_eq_some_iff.mp hi).1; omega
+              simp [List.getElem?_range hlt])
+          (fun j _ => hdigit hgood j)
       refine ⟨⟨hc.nodup, hc.zero, hc.bound, hcnl'.symm, by simp, by simp, ?_, ?_, ?_, ?_⟩, rfl, ?_⟩
       · intro cl hcl; simp at hcl; subst hcl; rw [f1, p1]
-      · intro cl cn hcl hcn i nm hi _
+      · intro hgood cl cn hcl hcn i nm hi _
         simp at hcl hcn; subst hcl; subst hcn
-        rw [hused]; exact f2 i nm hi
-      · intro _ cl hcl; simp at hcl; subst hcl; exact f3
+        rw [hused]; exact (hspec hgood).2.1 i nm hi
+      · intro hgood _ cl hcl; simp at hcl; subst hcl; exact (hspec hgood).2.2.1
       · intro cn hcn nm k hk
         simp at hcn; subst hcn
         rcases f5 nm k hk with h | h
@@ -1062,9 +1165,11 @@ namespace RegexVerif.Groups
 def GoodNames (evs : List Event) : Prop :=
   ∀ nm, Event.named nm ∈ evs → nm ≠ "" ∧ ∀ k : Nat, nm ≠ itoa k
 
-/-- no explicitly numbered group `(?<k>…)` in pattern-order mode (see design.d/C17.md, suspected defects) -/
+/-- no explicitly numbered group `(?<k>…)` in pattern-order mode: there it is booked under the
+    *name* "k", which can coincide with the automatic name of another slot (`(a)(?<1>b)`: names
+    0, 1, 1), so names and numbers are not in one-to-one correspondence -/
 def NoOrdNumbered (cfg : Cfg) (evs : List Event) : Prop :=
-  cfg.ord = true → ∀ k, Event.numbered k ∉ evs
+  cfg.ord = true → ∀ k, Event.numbered k ∉ evs ∧ Event.numbered0 k ∉ evs
 
 theorem noteName_mono {cfg : Cfg} {name : String} {s t : PState} (h : noteName cfg name s = some t) :
     (∀ x ∈ s.capnamelist, x ∈ t.capnamelist) ∧ (NamesInv s → name ∈ t.capnamelist) ∧
@@ -1091,7 +1196,14 @@ theorem scanEvent_mono {cfg : Cfg} {e : Event} {s t : PState} (h : scanEvent cfg
     (∀ nm, e = .named nm → NamesInv s → nm ∈ t.capnamelist) := by
   cases e with
   | noncap => simp [scanEvent] at h; subst h; simp
-  | numbered0 k => simp [scanEvent] at h; subst h; simp
+  | numbered0 k =>
+    simp only [scanEvent] at h
+    split at h
+    · injection h with h; subst h; simp
+    · split at h
+      · have := noteName_mono h; exact ⟨this.1, this.2.2, by simp⟩
+      · injection h with h; subst h
+        refine ⟨fun x hx => by rw [(noteSlot_names _ _).2.1]; exact hx, fun c hc => noteSlot_caps_mem.mpr (Or.inl hc), by simp⟩
   | unnamed =>
     simp only [scanEvent] at h
     split at h
@@ -1132,8 +1244,8 @@ theorem scanEvents_mono {cfg : Cfg} : ∀ (evs : List Event) {s s' : PState}, sc
 
 /-- the pre-scan as a whole -/
 theorem countCaptures_inv {cfg : Cfg} {evs : List Event} {t : Tables} (h : countCaptures cfg evs = some t)
-    (hg : GoodNames evs) (hno : NoOrdNumbered cfg evs) :
-    TInv cfg.ecma t ∧
+    (hg : GoodNames evs) :
+    TInv (NoOrdNumbered cfg evs) cfg.ecma t ∧
     (∀ nm, Event.named nm ∈ evs → ∃ k, (t.capnames.bind fun c => c.lookup nm) = some k ∧ k ∈ t.caps) := by
   unfold countCaptures at h
   cases hs : scanEvents cfg evs initState with
@@ -1142,17 +1254,19 @@ theorem countCaptures_inv {cfg : Cfg} {evs : List Event} {t : Tables} (h : count
     simp [hs] at h
     obtain ⟨hc, hn⟩ := scanEvents_inv evs hs capsInv_init namesInv_init
     have hmono := scanEvents_mono evs hs capsInv_init namesInv_init
-    have hgood : ∀ nm ∈ s.capnamelist, nm ≠ "" ∧ ∀ k : Nat, nm ≠ itoa k := by
-      intro nm hnm
+    have hgood : NoOrdNumbered cfg evs → ∀ nm ∈ s.capnamelist, nm ≠ "" ∧ ∀ k : Nat, nm ≠ itoa k := by
+      intro hno nm hnm
       rcases scanEvents_names evs hs nm hnm with h0 | h1 | ⟨k, hk, _, hko⟩
       · simp [initState] at h0
       · exact hg nm h1
-      · exact absurd hk (hno hko k)
+      · rcases hk with hk | hk
+        · exact absurd hk (hno hko k).1
+        · exact absurd hk (hno hko k).2
     by_cases ho : cfg.ord = true
     · rw [if_pos ho] at h; subst h
       have hoi := scanEvents_ordInv ho evs hs ordInv_init
-      obtain ⟨t1, t2, t3⟩ := assignOrderedNameSlots_inv cfg s hc hn hoi hgood
-      refine ⟨t1, ?_⟩
+      obtain ⟨t1, t2, t3⟩ := assignOrderedNameSlots_inv cfg s hc hn hoi
+      refine ⟨t1.imp hgood, ?_⟩
       intro nm hnm
       have hmem := hmono.2.2 nm hnm
       rw [t3 nm hmem, t2]
@@ -1170,15 +1284,16 @@ theorem countCaptures_inv {cfg : Cfg} {evs : List Event} {t : Tables} (h : count
         cases he : cfg.ecma with
         | false => rfl
         | true => simp [Cfg.ord, he] at ho
-      obtain ⟨t1, _, t3⟩ := assignNameSlots_inv s hc hn hgood
-      exact ⟨hef ▸ t1, fun nm hnm => t3 nm (hmono.2.2 nm hnm)⟩
+      have hno : NoOrdNumbered cfg evs := fun h' => absurd h' ho
+      obtain ⟨t1, _, t3⟩ := assignNameSlots_inv s hc hn (hgood hno)
+      exact ⟨hef ▸ t1.imp (fun _ => trivial), fun nm hnm => t3 nm (hmono.2.2 nm hnm)⟩
 
 /-- the tables of a compiled pattern, seen through `Maps` -/
 def Maps.tables (m : Maps) : Tables :=
   { caps := m.caps, capnumlist := m.capnumlist, captop := m.captop, capnames := m.capnames, caplist := m.caplist }
 
-structure MInv (m : Maps) : Prop where
-  t : TInv m.ecma m.tables
+structure MInv (good : Prop) (m : Maps) : Prop where
+  t : TInv good m.ecma m.tables
   code : m.codeCaps = m.capnumlist
   size : m.capsize = m.caps.length
 
@@ -1198,10 +1313,10 @@ theorem assign_tables {evs : List Event} {cfg : Cfg} {m : Maps} (h : assign evs 
       exact ⟨t, rfl, rfl, rfl, hns, rfl⟩
 
 theorem assign_inv {evs : List Event} {cfg : Cfg} {m : Maps} (h : assign evs cfg = some m)
-    (hg : GoodNames evs) (hno : NoOrdNumbered cfg evs) :
-    MInv m ∧ (∀ nm, Event.named nm ∈ evs → ∃ k, (m.capnames.bind fun c => c.lookup nm) = some k ∧ k ∈ m.caps) := by
+    (hg : GoodNames evs) :
+    MInv (NoOrdNumbered cfg evs) m ∧ (∀ nm, Event.named nm ∈ evs → ∃ k, (m.capnames.bind fun c => c.lookup nm) = some k ∧ k ∈ m.caps) := by
   obtain ⟨t, ht, hmt, hme, _, hw⟩ := assign_tables h
-  obtain ⟨hti, hnames⟩ := countCaptures_inv ht hg hno
+  obtain ⟨hti, hnames⟩ := countCaptures_inv ht hg
   have hcaps : m.caps = t.caps := by rw [← hmt]; rfl
   have hcn : m.capnames = t.capnames := by rw [← hmt]; rfl
   have hcnl : m.capnumlist = t.capnumlist := by rw [← hmt]; rfl
@@ -1240,7 +1355,7 @@ namespace RegexVerif.Groups
 
 /-! ### the lookup functions on consistent tables -/
 
-theorem MInv.nums_eq {m : Maps} (hm : MInv m) : getGroupNumbers m = usedNumbers m.caps m.captop := by
+theorem MInv.nums_eq {good : Prop} {m : Maps} (hm : MInv good m) : getGroupNumbers m = usedNumbers m.caps m.captop := by
   have hc : m.capnumlist = if m.caps.length < m.captop then some (isort m.caps) else none := hm.t.cnl
   unfold getGroupNumbers usedNumbers
   rw [hm.code, hc]
@@ -1248,7 +1363,7 @@ theorem MInv.nums_eq {m : Maps} (hm : MInv m) : getGroupNumbers m = usedNumbers 
   · simp [hlt]
   · simp [hlt, hm.size]
 
-theorem MInv.used {m : Maps} (hm : MInv m) :
+theorem MInv.used {good : Prop} {m : Maps} (hm : MInv good m) :
     (getGroupNumbers m).Pairwise (· < ·) ∧ (getGroupNumbers m).length = m.capsize ∧
     (∀ k, k ∈ getGroupNumbers m ↔ k ∈ m.caps) := by
   have h := usedNumbers_spec (caps := m.caps) (captop := m.captop) hm.t.nodup hm.t.bound
@@ -1256,7 +1371,7 @@ theorem MInv.used {m : Maps} (hm : MInv m) :
   exact ⟨h.1, h.2.1, h.2.2.1⟩
 
 /-- `mapCapnum` sends the `i`-th used number to slot `i` -/
-theorem MInv.slotOf_getElem {m : Maps} (hm : MInv m) {i n : Nat} (h : (getGroupNumbers m)[i]? = some n) :
+theorem MInv.slotOf_getElem {good : Prop} {m : Maps} (hm : MInv good m) {i n : Nat} (h : (getGroupNumbers m)[i]? = some n) :
     slotOf m n = some i := by
   have hnd := nodup_of_pairwise_lt hm.used.1
   unfold slotOf
@@ -1273,17 +1388,17 @@ theorem MInv.slotOf_getElem {m : Maps} (hm : MInv m) {i n : Nat} (h : (getGroupN
     rw [hc] at h hnd
     exact idxOf?_getElem hnd h
 
-theorem MInv.names_len {m : Maps} (hm : MInv m) : (getGroupNames m).length = m.capsize := by
+theorem MInv.names_len {good : Prop} {m : Maps} (hm : MInv good m) : (getGroupNames m).length = m.capsize := by
   unfold getGroupNames
   cases hc : m.caplist with
   | none => simp
   | some cl => simp only; rw [hm.t.len cl hc, hm.size]; rfl
 
-theorem MInv.dense_of_no_names {m : Maps} (hm : MInv m) (h : m.caplist = none) : m.codeCaps = none := by
+theorem MInv.dense_of_no_names {good : Prop} {m : Maps} (hm : MInv good m) (h : m.caplist = none) : m.codeCaps = none := by
   rw [hm.code]; exact hm.t.dense_of_none h
 
 /-- `GetGroupNames()[i]` is the name of `GetGroupNumbers()[i]` -/
-theorem MInv.aligned {m : Maps} (hm : MInv m) {i n : Nat} (h : (getGroupNumbers m)[i]? = some n) :
+theorem MInv.aligned {good : Prop} {m : Maps} (hm : MInv good m) {i n : Nat} (h : (getGroupNumbers m)[i]? = some n) :
     (getGroupNames m)[i]? = some (groupNameFromNumber m n) := by
   have hlt : i < m.capsize := by
     have := (List.getElem?_eq_some_iff.mp h).1; rw [hm.used.2.1] at this; exact this
@@ -1316,8 +1431,8 @@ theorem MInv.aligned {m : Maps} (hm : MInv m) {i n : Nat} (h : (getGroupNumbers 
       rw [List.getD_eq_getElem?_getD, List.getElem?_eq_getElem (by omega)]; simp
 
 /-- `GroupNumberFromName(GetGroupNames()[i]) = GetGroupNumbers()[i]` for every non-empty listed name -/
-theorem MInv.number_of_listed_name {m : Maps} (hm : MInv m) {i : Nat} {nm : String}
-    (h : (getGroupNames m)[i]? = some nm) (hne : nm ≠ "") :
+theorem MInv.number_of_listed_name {good : Prop} {m : Maps} (hm : MInv good m) {i : Nat} {nm : String}
+    (hgood : good) (h : (getGroupNames m)[i]? = some nm) (hne : nm ≠ "") :
     groupNumberFromName m nm = (getGroupNumbers m)[i]? := by
   have hlt : i < m.capsize := by
     have := (List.getElem?_eq_some_iff.mp h).1; rw [hm.names_len] at this; exact this
@@ -1332,9 +1447,24 @@ theorem MInv.number_of_listed_name {m : Maps} (hm : MInv m) {i : Nat} {nm : Stri
     rw [List.getElem?_map, List.getElem?_range hlt] at h
     simp at h; subst h
     rw [hcn]
-    simp only [itoa_digits, ofDigitChars_itoa, if_true, hlt]
-    unfold getGroupNumbers
-    rw [hcc]; simp [List.getElem?_range hlt]
+    simp only
+    cases hl : (itoa i).toList with
+    | nil =>
+      have := itoa_toList i
+      rw [hl] at this
+      exact absurd this.symm Nat.toDigits_ne_nil
+    | cons c rest =>
+      simp only
+      have hcan : ¬ ((c = '0' && !rest.isEmpty) = true) := by
+        intro hc
+        simp at hc
+        exact itoa_canonical i c rest hl (by intro e; simp [e] at hc) hc.1
+      have hd := itoa_digits i
+      have ho := ofDigitChars_itoa i
+      rw [hl] at hd ho
+      rw [if_neg hcan, if_pos hd, ho, if_pos hlt]
+      unfold getGroupNumbers
+      rw [hcc]; simp [List.getElem?_range hlt]
   | some cl =>
     rw [hcl] at h
     simp only at h
@@ -1343,7 +1473,7 @@ theorem MInv.number_of_listed_name {m : Maps} (hm : MInv m) {i : Nat} {nm : Stri
     | some cn =>
       simp only
       rw [hm.nums_eq]
-      exact hm.t.name_num cl cn hcl hcn i nm h hne
+      exact hm.t.name_num hgood cl cn hcl hcn i nm h hne
 
 end RegexVerif.Groups
 
@@ -1355,6 +1485,30 @@ def countUnnamed : List Event → Nat
   | [] => 0
   | .unnamed :: es => countUnnamed es + 1
   | _ :: es => countUnnamed es
+
+theorem explicitNumber_nonord {cfg : Cfg} {t : Tables} {k c : Nat} (ho : cfg.ord = false)
+    (h : explicitNumber cfg t k = some c) : c = k ∧ k ∈ t.caps ∧ k ≠ 0 := by
+  unfold explicitNumber at h
+  split at h
+  · exact absurd h (by simp)
+  · rename_i h1
+    simp only [ho, Bool.false_eq_true, if_false] at h
+    split at h
+    · rename_i h2
+      injection h with h
+      simp at h1
+      exact ⟨h.symm, h2, h1.2⟩
+    · exact absurd h (by simp)
+
+theorem explicitNumber_ord {cfg : Cfg} {t : Tables} {k c : Nat} (ho : cfg.ord = true)
+    (h : explicitNumber cfg t k = some c) :
+    cfg.ecma = false ∧ k ≠ 0 ∧ (t.capnames.bind fun cn => cn.lookup (itoa k)) = some c := by
+  unfold explicitNumber at h
+  split at h
+  · exact absurd h (by simp)
+  · rename_i h1
+    simp at h1
+    exact ⟨h1.1, h1.2, h⟩
 
 /-- what `groupNumbers` answers per event, when there is no pattern-order bookkeeping -/
 theorem groupNumbers_spec {cfg : Cfg} {t : Tables} (ho : cfg.ord = false) : ∀ (evs : List Event) (a : Nat)
@@ -1448,24 +1602,26 @@ theorem groupNumbers_spec {cfg : Cfg} {t : Tables} (ho : cfg.ord = false) : ∀ 
         | some ns' => simp [hr] at h; exact step a (some k) ns' hr h.symm ⟨k, hk, rfl⟩ (fun _ => rfl)
     | numbered k =>
       simp only [groupNumbers] at h
-      by_cases hc : (cfg.ecma || decide (k = 0) || !decide (k ∈ t.caps)) = true
-      · rw [if_pos hc] at h; exact absurd h (by simp)
-      · rw [if_neg hc] at h
-        simp only [ho, Bool.false_and, Bool.false_eq_true, if_false] at h
-        simp at hc
+      cases hx : explicitNumber cfg t k with
+      | none => simp [hx] at h
+      | some c =>
+        obtain ⟨hck, hkc, hk0⟩ := explicitNumber_nonord ho hx
+        subst hck
+        simp only [hx, ho, Bool.false_and, Bool.false_eq_true, if_false] at h
         cases hr : groupNumbers cfg t es a with
         | none => simp [hr] at h
-        | some ns' => simp [hr] at h; exact step a (some k) ns' hr h.symm ⟨rfl, hc.2, hc.1.2⟩ (fun _ => rfl)
+        | some ns' => simp [hr] at h; exact step a (some c) ns' hr h.symm ⟨rfl, hkc, hk0⟩ (fun _ => rfl)
     | numbered0 k =>
       simp only [groupNumbers] at h
-      by_cases hc : (cfg.ecma || decide (k = 0) || !decide (k ∈ t.caps)) = true
-      · rw [if_pos hc] at h; exact absurd h (by simp)
-      · rw [if_neg hc] at h
-        simp only [ho, Bool.false_and, Bool.false_eq_true, if_false] at h
-        simp at hc
+      cases hx : explicitNumber cfg t k with
+      | none => simp [hx] at h
+      | some c =>
+        obtain ⟨hck, hkc, hk0⟩ := explicitNumber_nonord ho hx
+        subst hck
+        simp only [hx, ho, Bool.false_and, Bool.false_eq_true, if_false] at h
         cases hr : groupNumbers cfg t es a with
         | none => simp [hr] at h
-        | some ns' => simp [hr] at h; exact step a (some k) ns' hr h.symm ⟨rfl, hc.2, hc.1.2⟩ (fun _ => rfl)
+        | some ns' => simp [hr] at h; exact step a (some c) ns' hr h.symm ⟨rfl, hkc, hk0⟩ (fun _ => rfl)
 
 /-- without pattern-order bookkeeping the pre-scan hands the unnamed groups the numbers 1, 2, … -/
 theorem scanEvents_autocap {cfg : Cfg} (ho : cfg.ord = false) : ∀ (evs : List Event) {s s' : PState},
@@ -1490,7 +1646,14 @@ theorem scanEvents_autocap {cfg : Cfg} (ho : cfg.ord = false) : ∀ (evs : List 
         · injection hn with hn; subst hn; rfl
       cases e with
       | noncap => simp [scanEvent] at h1; subst h1; simpa [countUnnamed] using ih
-      | numbered0 k => simp [scanEvent] at h1; subst h1; simpa [countUnnamed] using ih
+      | numbered0 k =>
+        simp only [scanEvent] at h1
+        split at h1
+        · injection h1 with h1; subst h1; simpa [countUnnamed] using ih
+        · simp only [ho, Bool.false_eq_true, if_false] at h1
+          injection h1 with h1; subst h1
+          rw [(noteSlot_names _ _).2.2] at ih
+          simpa [countUnnamed] using ih
       | unnamed =>
         simp only [scanEvent] at h1
         by_cases hx : cfg.explicitCapture = true
@@ -1528,8 +1691,7 @@ theorem evNums_mem_caps {evs : List Event} {cfg : Cfg} {m : Maps} (h : assign ev
     (ho : cfg.ord = false) (hg : GoodNames evs) :
     ∀ (i n : Nat), m.evNums[i]? = some (some n) → n ∈ m.caps := by
   obtain ⟨t, ht, hmt, _, hgn, _⟩ := assign_tables h
-  have hno : NoOrdNumbered cfg evs := fun h' => by simp [ho] at h'
-  obtain ⟨hti, _⟩ := countCaptures_inv ht hg hno
+  obtain ⟨hti, _⟩ := countCaptures_inv ht hg
   have hcaps : m.caps = t.caps := by rw [← hmt]; rfl
   obtain ⟨hlen, hspec⟩ := groupNumbers_spec ho evs 1 m.evNums hgn
   intro i n hi
@@ -1582,7 +1744,8 @@ namespace RegexVerif.Groups
 /-! ### pattern-order mode: the main parse hands out the numbers the pre-scan reserved -/
 
 /-- the documented rule of MaintainCaptureOrder / ECMAScript: one pass, every unnamed group and
-    every first occurrence of a name takes the next number, a repeated name shares -/
+    every first occurrence of a name takes the next number, a repeated name shares.  An explicitly
+    numbered group `(?<k>…)` counts as a group named "k" (with or without leading zeros). -/
 def orderSpec (n : Bool) : List Event → List (String × Nat) → Nat → List (Option Nat)
   | [], _, _ => []
   | .unnamed :: es, seen, a =>
@@ -1591,9 +1754,15 @@ def orderSpec (n : Bool) : List Event → List (String × Nat) → Nat → List 
     match seen.lookup nm with
     | some k => some k :: orderSpec n es seen a
     | none => some a :: orderSpec n es (seen ++ [(nm, a)]) (a + 1)
-  | _ :: es, seen, a => none :: orderSpec n es seen a
-
-def OrdClean (evs : List Event) : Prop := ∀ k, Event.numbered k ∉ evs ∧ Event.numbered0 k ∉ evs
+  | .numbered j :: es, seen, a =>
+    match seen.lookup (itoa j) with
+    | some k => some k :: orderSpec n es seen a
+    | none => some a :: orderSpec n es (seen ++ [(itoa j, a)]) (a + 1)
+  | .numbered0 j :: es, seen, a =>
+    match seen.lookup (itoa j) with
+    | some k => some k :: orderSpec n es seen a
+    | none => some a :: orderSpec n es (seen ++ [(itoa j, a)]) (a + 1)
+  | .noncap :: es, seen, a => none :: orderSpec n es seen a
 
 theorem noteName_lookup_mono {cfg : Cfg} {name : String} {s t : PState} (h : noteName cfg name s = some t)
     {nm : String} {k : Nat} (hk : (s.capnames.getD []).lookup nm = some k) :
@@ -1624,7 +1793,13 @@ theorem scanEvents_lookup_mono {cfg : Cfg} : ∀ (evs : List Event) {s s' : PSta
       apply scanEvents_lookup_mono es h
       cases e with
       | noncap => simp [scanEvent] at h1; subst h1; exact hk
-      | numbered0 j => simp [scanEvent] at h1; subst h1; exact hk
+      | numbered0 j =>
+        simp only [scanEvent] at h1
+        split at h1
+        · injection h1 with h1; subst h1; exact hk
+        · split at h1
+          · exact noteName_lookup_mono h1 hk
+          · injection h1 with h1; subst h1; rw [(noteSlot_names _ _).1]; exact hk
       | unnamed =>
         simp only [scanEvent] at h1
         split at h1
@@ -1638,154 +1813,6 @@ theorem scanEvents_lookup_mono {cfg : Cfg} : ∀ (evs : List Event) {s s' : PSta
         · split at h1
           · exact noteName_lookup_mono h1 hk
           · injection h1 with h1; subst h1; rw [(noteSlot_names _ _).1]; exact hk
-
-/-- the synchronisation of the two passes in pattern-order mode -/
-theorem groupNumbers_ord_sync {cfg : Cfg} (ho : cfg.ord = true) (t : Tables) (sfin : PState)
-    (hL : ∀ nm k, (sfin.capnames.getD []).lookup nm = some k → (t.capnames.bind fun c => c.lookup nm) = some k) :
-    ∀ (post : List Event) (s : PState), scanEvents cfg post s = some sfin →
-      OrdInv s → CapsInv s → NamesInv s → OrdClean post →
-      groupNumbers cfg t post s.autocap =
-        some (orderSpec cfg.explicitCapture post (s.capnames.getD []) s.autocap) ∧
-      ∀ (i k : Nat), (orderSpec cfg.explicitCapture post (s.capnames.getD []) s.autocap)[i]? = some (some k) →
-        k ∈ sfin.caps
-  | [], s, h, _, _, _, _ => by simp [groupNumbers, orderSpec]
-  | e :: es, s, h, hoi, hc, hn, hcl => by
-    simp only [scanEvents] at h
-    cases h1 : scanEvent cfg s e with
-    | none => simp [h1] at h
-    | some s1 =>
-      simp [h1] at h
-      have hi1 := scanEvent_inv h1 hc hn
-      have ho1 := scanEvent_ordInv ho h1 hoi
-      have hcl' : OrdClean es := fun k => ⟨fun hm => (hcl k).1 (by simp [hm]), fun hm => (hcl k).2 (by simp [hm])⟩
-      have ih := groupNumbers_ord_sync ho t sfin hL es s1 h ho1 hi1.1 hi1.2 hcl'
-      have hmono := scanEvents_mono es h hi1.1 hi1.2
-      cases e with
-      | numbered k => exact absurd (by simp) (hcl k).1
-      | numbered0 k => exact absurd (by simp) (hcl k).2
-      | noncap =>
-        simp [scanEvent] at h1; subst h1
-        simp only [groupNumbers, orderSpec, ih.1, Option.map_some]
-        refine ⟨by first | rfl | trivial, ?_⟩
-        intro i k hik
-        cases i with
-        | zero => simp at hik
-        | succ i => simp at hik; exact ih.2 i k hik
-      | unnamed =>
-        simp only [scanEvent] at h1
-        by_cases hx : cfg.explicitCapture = true
-        · rw [if_pos hx] at h1; injection h1 with h1; subst h1
-          simp only [groupNumbers, orderSpec, hx, if_true, ih.1, Option.map_some]
-          refine ⟨by first | rfl | trivial, ?_⟩
-          intro i k hik
-          cases i with
-          | zero => simp at hik
-          | succ i => simp at hik; rw [hx] at ih; exact ih.2 i k hik
-        · rw [if_neg hx] at h1; injection h1 with h1; subst h1
-          have hnm := noteSlot_names s.autocap { s with autocap := s.autocap + 1 }
-          rw [hnm.1, hnm.2.2] at ih
-          simp only [groupNumbers, orderSpec, hx, Bool.false_eq_true, if_false] at ih ⊢
-          rw [ih.1]
-          refine ⟨by first | rfl | trivial, ?_⟩
-          intro i k hik
-          cases i with
-          | zero =>
-            simp at hik; subst hik
-            exact hmono.2.1 _ (noteSlot_caps_mem.mpr (Or.inr rfl))
-          | succ i => simp at hik; exact ih.2 i k hik
-      | named name =>
-        have h1' : noteName cfg name s = some s1 := by simpa [scanEvent] using h1
-        have hfin : ∀ k, (s1.capnames.getD []).lookup name = some k →
-            (t.capnames.bind fun c => c.lookup name) = some k :=
-          fun k hk => hL name k (scanEvents_lookup_mono es h hk)
-        unfold noteName at h1'
-        simp only at h1'
-        cases hlk : (s.capnames.getD []).lookup name with
-        | some k =>
-          simp only [hlk, Option.isSome_some, if_true] at h1'
-          split at h1'
-          · exact absurd h1' (by simp)
-          · injection h1' with h1'; subst h1'
-            have hkt := hfin k (by simpa using hlk)
-            have hlt : k < s.autocap := by
-              cases hcn : s.capnames with
-              | none => simp [hcn] at hlk
-              | some c => simp [hcn] at hlk; exact hoi.vals c hcn name k hlk
-            have hne : ¬ k = s.autocap := by omega
-            simp only [Option.getD_some] at ih
-            simp only [groupNumbers, orderSpec, hkt, hlk, ho, Bool.true_and, decide_eq_true_eq, hne, if_false, ih.1,
-              Option.map_some]
-            refine ⟨by first | rfl | trivial, ?_⟩
-            intro i k' hik
-            cases i with
-            | zero =>
-              simp at hik; subst hik
-              exact hmono.2.1 k (by show k ∈ s.caps; rw [hoi.caps]; simp; exact hlt)
-            | succ i => simp at hik; exact ih.2 i k' hik
-        | none =>
-          simp only [hlk, Option.isSome_none, Bool.false_eq_true, if_false, ho, if_true] at h1'
-          injection h1' with h1'; subst h1'
-          rw [(noteSlot_names _ _).1, (noteSlot_names _ _).2.2] at ih
-          simp only [Option.getD_some] at ih
-          have hkt := hfin s.autocap (by
-            rw [(noteSlot_names _ _).1]; simp only [Option.getD_some]
-            rw [lookup_append_of_none hlk]; simp)
-          simp only [groupNumbers, orderSpec, hkt, hlk, ho, Bool.true_and, decide_true, if_true, ih.1, Option.map_some]
-          refine ⟨by first | rfl | trivial, ?_⟩
-          intro i k' hik
-          cases i with
-          | zero =>
-            simp at hik; subst hik
-            exact hmono.2.1 _ (noteSlot_caps_mem.mpr (Or.inr rfl))
-          | succ i => simp at hik; exact ih.2 i k' hik
-
-end RegexVerif.Groups
-
-namespace RegexVerif.Groups
-
-theorem assign_ord_spec {evs : List Event} {cfg : Cfg} {m : Maps} (h : assign evs cfg = some m)
-    (ho : cfg.ord = true) (hcl : OrdClean evs) (hg : GoodNames evs) :
-    m.evNums = orderSpec cfg.explicitCapture evs [] 1 ∧
-    ∀ (i k : Nat), m.evNums[i]? = some (some k) → k ∈ m.caps := by
-  obtain ⟨t, ht, hmt, _, hgn, _⟩ := assign_tables h
-  have hcaps : m.caps = t.caps := by rw [← hmt]; rfl
-  unfold countCaptures at ht
-  cases hs : scanEvents cfg evs initState with
-  | none => simp [hs] at ht
-  | some s =>
-    simp [hs, ho] at ht
-    obtain ⟨hc, hn⟩ := scanEvents_inv evs hs capsInv_init namesInv_init
-    have hoi := scanEvents_ordInv ho evs hs ordInv_init
-    have hgood : ∀ nm ∈ s.capnamelist, nm ≠ "" ∧ ∀ k : Nat, nm ≠ itoa k := by
-      intro nm hnm
-      rcases scanEvents_names evs hs nm hnm with h0 | h1 | ⟨k, hk, _, _⟩
-      · simp [initState] at h0
-      · exact hg nm h1
-      · exact absurd hk (hcl k).1
-    obtain ⟨_, t2, t3⟩ := assignOrderedNameSlots_inv cfg s hc hn hoi hgood
-    rw [ht] at t2 t3
-    have hL : ∀ nm k, (s.capnames.getD []).lookup nm = some k → (t.capnames.bind fun c => c.lookup nm) = some k := by
-      intro nm k hk
-      have hmem : nm ∈ s.capnamelist := by
-        rw [← hn.keys]; exact lookup_isSome_iff_mem_keys.mp (by simp [hk])
-      rw [t3 nm hmem]
-      cases hcn : s.capnames with
-      | none => simp [hcn] at hk
-      | some c => simpa [hcn] using hk
-    obtain ⟨g1, g2⟩ := groupNumbers_ord_sync ho t s hL evs initState hs ordInv_init capsInv_init namesInv_init hcl
-    have h1 : initState.autocap = 1 := rfl
-    have h2 : initState.capnames.getD [] = [] := rfl
-    rw [h1, h2] at g1 g2
-    rw [hgn] at g1
-    injection g1 with g1
-    refine ⟨g1, ?_⟩
-    intro i k hik
-    rw [hcaps, t2]
-    exact g2 i k (g1 ▸ hik)
-
-end RegexVerif.Groups
-
-namespace RegexVerif.Groups
 
 /-- one step of the main parse, in any mode -/
 theorem groupNumbers_peel {cfg : Cfg} {t : Tables} {e : Event} {es : List Event} {a : Nat} {ns : List (Option Nat)}
@@ -1814,16 +1841,207 @@ theorem groupNumbers_peel {cfg : Cfg} {t : Tables} {e : Event} {es : List Event}
       exact ⟨_, some k, ns', hr, rfl, fun nm hnm => by injection hnm with hnm; subst hnm; exact hl.symm⟩
   | numbered k =>
     simp only [groupNumbers] at h
-    split at h
-    · exact absurd h (by simp)
-    · obtain ⟨ns', hr, rfl⟩ := Option.map_eq_some_iff.mp h
-      exact ⟨_, some k, ns', hr, rfl, fun nm hnm => by cases hnm⟩
+    cases hx : explicitNumber cfg t k with
+    | none => simp [hx] at h
+    | some c =>
+      simp only [hx] at h
+      obtain ⟨ns', hr, rfl⟩ := Option.map_eq_some_iff.mp h
+      exact ⟨_, some c, ns', hr, rfl, fun nm hnm => by cases hnm⟩
   | numbered0 k =>
     simp only [groupNumbers] at h
-    split at h
-    · exact absurd h (by simp)
-    · obtain ⟨ns', hr, rfl⟩ := Option.map_eq_some_iff.mp h
-      exact ⟨_, some k, ns', hr, rfl, fun nm hnm => by cases hnm⟩
+    cases hx : explicitNumber cfg t k with
+    | none => simp [hx] at h
+    | some c =>
+      simp only [hx] at h
+      obtain ⟨ns', hr, rfl⟩ := Option.map_eq_some_iff.mp h
+      exact ⟨_, some c, ns', hr, rfl, fun nm hnm => by cases hnm⟩
+
+/-- one group booked under a name (written name, or the decimal string of an explicit number) in
+    pattern-order mode: pre-scan and main parse agree -/
+theorem ord_sync_name {cfg : Cfg} (ho : cfg.ord = true) (t : Tables) (sfin : PState)
+    (hL : ∀ nm k, (sfin.capnames.getD []).lookup nm = some k → (t.capnames.bind fun c => c.lookup nm) = some k)
+    (name : String) (es : List Event) (s s1 : PState) (h1' : noteName cfg name s = some s1)
+    (h : scanEvents cfg es s1 = some sfin) (hoi : OrdInv s) (hc1 : CapsInv s1) (hn1 : NamesInv s1)
+    (c : Nat) (hc : (t.capnames.bind fun cn => cn.lookup name) = some c)
+    (ns' : List (Option Nat))
+    (hr : groupNumbers cfg t es (if (cfg.ord && decide (c = s.autocap)) = true then s.autocap + 1 else s.autocap) = some ns')
+    (ih : ∀ ns, groupNumbers cfg t es s1.autocap = some ns →
+      ns = orderSpec cfg.explicitCapture es (s1.capnames.getD []) s1.autocap ∧
+      ∀ (i k : Nat), ns[i]? = some (some k) → k ∈ sfin.caps) :
+    (some c :: ns') =
+      (match (s.capnames.getD []).lookup name with
+       | some k => some k :: orderSpec cfg.explicitCapture es (s.capnames.getD []) s.autocap
+       | none => some s.autocap :: orderSpec cfg.explicitCapture es (s.capnames.getD [] ++ [(name, s.autocap)]) (s.autocap + 1)) ∧
+    ∀ (i k : Nat), (some c :: ns')[i]? = some (some k) → k ∈ sfin.caps := by
+  have hmono := scanEvents_mono es h hc1 hn1
+  have hfin : ∀ k, (s1.capnames.getD []).lookup name = some k → c = k := by
+    intro k hk
+    have := hL name k (scanEvents_lookup_mono es h hk)
+    rw [hc] at this; injection this
+  unfold noteName at h1'
+  simp only at h1'
+  cases hlk : (s.capnames.getD []).lookup name with
+  | some k =>
+    simp only [hlk, Option.isSome_some, if_true] at h1'
+    split at h1'
+    · exact absurd h1' (by simp)
+    · injection h1' with h1'; subst h1'
+      have hck : c = k := hfin k (by simpa using hlk)
+      subst hck
+      have hlt : c < s.autocap := by
+        cases hcn : s.capnames with
+        | none => simp [hcn] at hlk
+        | some cc => simp [hcn] at hlk; exact hoi.vals cc hcn name c hlk
+      have hne : ¬ c = s.autocap := by omega
+      simp only [ho, Bool.true_and, decide_eq_true_eq, hne, if_false] at hr
+      obtain ⟨i1, i2⟩ := ih ns' hr
+      simp only [Option.getD_some] at i1
+      refine ⟨by rw [i1], ?_⟩
+      intro i k' hik
+      cases i with
+      | zero =>
+        simp at hik; subst hik
+        exact hmono.2.1 c (by show c ∈ s.caps; rw [hoi.caps]; simp; exact hlt)
+      | succ i => simp at hik; exact i2 i k' hik
+  | none =>
+    simp only [hlk, Option.isSome_none, Bool.false_eq_true, if_false, ho, if_true] at h1'
+    injection h1' with h1'; subst h1'
+    have hca : c = s.autocap := hfin s.autocap (by
+      rw [(noteSlot_names _ _).1]; simp only [Option.getD_some]
+      rw [lookup_append_of_none hlk]; simp)
+    subst hca
+    simp only [ho, Bool.true_and, decide_true, if_true] at hr
+    rw [(noteSlot_names _ _).1, (noteSlot_names _ _).2.2] at ih
+    simp only [Option.getD_some] at ih
+    obtain ⟨i1, i2⟩ := ih ns' hr
+    refine ⟨by rw [i1], ?_⟩
+    intro i k' hik
+    cases i with
+    | zero =>
+      simp at hik; subst hik
+      exact hmono.2.1 _ (noteSlot_caps_mem.mpr (Or.inr rfl))
+    | succ i => simp at hik; exact i2 i k' hik
+
+/-- the synchronisation of the two passes in pattern-order mode: whenever the main parse succeeds,
+    it hands out exactly the numbers of the one-pass rule, all of them booked by the pre-scan -/
+theorem groupNumbers_ord_sync {cfg : Cfg} (ho : cfg.ord = true) (t : Tables) (sfin : PState)
+    (hL : ∀ nm k, (sfin.capnames.getD []).lookup nm = some k → (t.capnames.bind fun c => c.lookup nm) = some k) :
+    ∀ (post : List Event) (s : PState), scanEvents cfg post s = some sfin →
+      OrdInv s → CapsInv s → NamesInv s →
+      ∀ ns, groupNumbers cfg t post s.autocap = some ns →
+      ns = orderSpec cfg.explicitCapture post (s.capnames.getD []) s.autocap ∧
+      ∀ (i k : Nat), ns[i]? = some (some k) → k ∈ sfin.caps
+  | [], s, h, _, _, _, ns, hg => by
+    simp [groupNumbers] at hg; subst hg; simp [orderSpec]
+  | e :: es, s, h, hoi, hc, hn, ns, hg => by
+    simp only [scanEvents] at h
+    cases h1 : scanEvent cfg s e with
+    | none => simp [h1] at h
+    | some s1 =>
+      simp [h1] at h
+      have hi1 := scanEvent_inv h1 hc hn
+      have ho1 := scanEvent_ordInv ho h1 hoi
+      have ih := groupNumbers_ord_sync ho t sfin hL es s1 h ho1 hi1.1 hi1.2
+      have hmono := scanEvents_mono es h hi1.1 hi1.2
+      cases e with
+      | noncap =>
+        simp [scanEvent] at h1; subst h1
+        simp only [groupNumbers] at hg
+        obtain ⟨ns', hr, rfl⟩ := Option.map_eq_some_iff.mp hg
+        obtain ⟨i1, i2⟩ := ih ns' hr
+        refine ⟨by simp only [orderSpec]; rw [i1], ?_⟩
+        intro i k hik
+        cases i with
+        | zero => simp at hik
+        | succ i => simp at hik; exact i2 i k hik
+      | unnamed =>
+        simp only [scanEvent] at h1
+        simp only [groupNumbers] at hg
+        by_cases hx : cfg.explicitCapture = true
+        · rw [if_pos hx] at h1 hg; injection h1 with h1; subst h1
+          obtain ⟨ns', hr, rfl⟩ := Option.map_eq_some_iff.mp hg
+          obtain ⟨i1, i2⟩ := ih ns' hr
+          refine ⟨by simp only [orderSpec, hx, if_true]; rw [i1, hx], ?_⟩
+          intro i k hik
+          cases i with
+          | zero => simp at hik
+          | succ i => simp at hik; exact i2 i k hik
+        · rw [if_neg hx] at h1 hg; injection h1 with h1; subst h1
+          obtain ⟨ns', hr, rfl⟩ := Option.map_eq_some_iff.mp hg
+          rw [(noteSlot_names _ _).1, (noteSlot_names _ _).2.2] at ih
+          obtain ⟨i1, i2⟩ := ih ns' hr
+          have hxf : cfg.explicitCapture = false := by simpa using hx
+          refine ⟨by simp only [orderSpec, hxf, Bool.false_eq_true, if_false]; rw [i1, hxf], ?_⟩
+          intro i k hik
+          cases i with
+          | zero =>
+            simp at hik; subst hik
+            exact hmono.2.1 _ (noteSlot_caps_mem.mpr (Or.inr rfl))
+          | succ i => simp at hik; exact i2 i k hik
+      | named name =>
+        have h1' : noteName cfg name s = some s1 := by simpa [scanEvent] using h1
+        simp only [groupNumbers] at hg
+        cases hk : (t.capnames.bind fun cn => cn.lookup name) with
+        | none => simp [hk] at hg
+        | some c =>
+          simp only [hk] at hg
+          obtain ⟨ns', hr, rfl⟩ := Option.map_eq_some_iff.mp hg
+          have := ord_sync_name ho t sfin hL name es s s1 h1' h hoi hi1.1 hi1.2 c hk ns' hr ih
+          simpa only [orderSpec] using this
+      | numbered j =>
+        simp only [groupNumbers] at hg
+        cases hx : explicitNumber cfg t j with
+        | none => simp [hx] at hg
+        | some c =>
+          simp only [hx] at hg
+          obtain ⟨ns', hr, rfl⟩ := Option.map_eq_some_iff.mp hg
+          obtain ⟨he, _, hk⟩ := explicitNumber_ord ho hx
+          have h1' : noteName cfg (itoa j) s = some s1 := by
+            simp only [scanEvent, he, Bool.false_eq_true, if_false, ho, if_true] at h1; exact h1
+          have := ord_sync_name ho t sfin hL (itoa j) es s s1 h1' h hoi hi1.1 hi1.2 c hk ns' hr ih
+          simpa only [orderSpec] using this
+      | numbered0 j =>
+        simp only [groupNumbers] at hg
+        cases hx : explicitNumber cfg t j with
+        | none => simp [hx] at hg
+        | some c =>
+          simp only [hx] at hg
+          obtain ⟨ns', hr, rfl⟩ := Option.map_eq_some_iff.mp hg
+          obtain ⟨he, _, hk⟩ := explicitNumber_ord ho hx
+          have h1' : noteName cfg (itoa j) s = some s1 := by
+            simp only [scanEvent, he, Bool.false_eq_true, if_false, ho, if_true] at h1; exact h1
+          have := ord_sync_name ho t sfin hL (itoa j) es s s1 h1' h hoi hi1.1 hi1.2 c hk ns' hr ih
+          simpa only [orderSpec] using this
+
+theorem assign_ord_spec {evs : List Event} {cfg : Cfg} {m : Maps} (h : assign evs cfg = some m)
+    (ho : cfg.ord = true) :
+    m.evNums = orderSpec cfg.explicitCapture evs [] 1 ∧
+    ∀ (i k : Nat), m.evNums[i]? = some (some k) → k ∈ m.caps := by
+  obtain ⟨t, ht, hmt, _, hgn, _⟩ := assign_tables h
+  have hcaps : m.caps = t.caps := by rw [← hmt]; rfl
+  unfold countCaptures at ht
+  cases hs : scanEvents cfg evs initState with
+  | none => simp [hs] at ht
+  | some s =>
+    simp [hs, ho] at ht
+    obtain ⟨hc, hn⟩ := scanEvents_inv evs hs capsInv_init namesInv_init
+    have hoi := scanEvents_ordInv ho evs hs ordInv_init
+    obtain ⟨_, t2, t3⟩ := assignOrderedNameSlots_inv cfg s hc hn hoi
+    rw [ht] at t2 t3
+    have hL : ∀ nm k, (s.capnames.getD []).lookup nm = some k → (t.capnames.bind fun c => c.lookup nm) = some k := by
+      intro nm k hk
+      have hmem : nm ∈ s.capnamelist := by
+        rw [← hn.keys]; exact lookup_isSome_iff_mem_keys.mp (by simp [hk])
+      rw [t3 nm hmem]
+      cases hcn : s.capnames with
+      | none => simp [hcn] at hk
+      | some c => simpa [hcn] using hk
+    obtain ⟨g1, g2⟩ := groupNumbers_ord_sync ho t s hL evs initState hs ordInv_init capsInv_init namesInv_init
+      m.evNums hgn
+    refine ⟨g1, ?_⟩
+    intro i k hik
+    rw [hcaps, t2]
+    exact g2 i k hik
 
 /-- a named group captures into the number its name maps to (any mode) -/
 theorem groupNumbers_named {cfg : Cfg} {t : Tables} {nm : String} : ∀ (es : List Event) (a : Nat) (ns : List (Option Nat)),
@@ -1842,10 +2060,11 @@ namespace RegexVerif.Groups
 
 /-! ### which numbers the names get (default order) -/
 
-/-- the numbers written explicitly, `(?<k>…)` -/
+/-- the numbers written explicitly, `(?<k>…)`, with or without leading zeros -/
 def explicitNumbers : List Event → List Nat
   | [] => []
   | .numbered k :: es => k :: explicitNumbers es
+  | .numbered0 k :: es => k :: explicitNumbers es
   | _ :: es => explicitNumbers es
 
 /-- the distinct names of the pattern in order of first appearance -/
@@ -1922,7 +2141,12 @@ theorem scanEvents_namelist {cfg : Cfg} (ho : cfg.ord = false) : ∀ (evs : List
       rw [ih]
       cases e with
       | noncap => simp [scanEvent] at h1; subst h1; rfl
-      | numbered0 k => simp [scanEvent] at h1; subst h1; rfl
+      | numbered0 k =>
+        simp only [scanEvent] at h1
+        split at h1
+        · injection h1 with h1; subst h1; rfl
+        · simp only [ho, Bool.false_eq_true, if_false] at h1
+          injection h1 with h1; subst h1; rw [(noteSlot_names _ _).2.1]; rfl
       | unnamed =>
         simp only [scanEvent] at h1
         split at h1
@@ -1984,7 +2208,37 @@ theorem scanEvents_explicit {cfg : Cfg} (ho : cfg.ord = false) : ∀ (evs : List
         rw [hex]; rw [hc1] at ih; exact ih
       cases e with
       | noncap => simp [scanEvent] at h1; subst h1; exact same rfl rfl rfl
-      | numbered0 k => simp [scanEvent] at h1; subst h1; exact same rfl rfl rfl
+      | numbered0 k =>
+        simp only [scanEvent] at h1
+        by_cases he : cfg.ecma = true
+        · rw [if_pos he] at h1; injection h1 with h1; subst h1
+          have ih := scanEvents_explicit ho es P h hP
+          refine ⟨fun c hc => ?_, fun hef => by simp [hef] at he, ih.2.2⟩
+          rcases ih.1 c hc with h' | h' | h'
+          · exact Or.inl h'
+          · exact Or.inr (Or.inl h')
+          · exact Or.inr (Or.inr (by simp [explicitNumbers, h']))
+        · rw [if_neg he] at h1
+          simp only [ho, Bool.false_eq_true, if_false] at h1
+          injection h1 with h1; subst h1
+          have ih := scanEvents_explicit ho es (fun c => P c ∨ c = k) h (by
+            intro c hc
+            rw [(noteSlot_names _ _).2.2]
+            rcases noteSlot_caps_mem.mp hc with h' | h'
+            · rcases hP c h' with h'' | h''
+              · exact Or.inl h''
+              · exact Or.inr (Or.inl h'')
+            · exact Or.inr (Or.inr h'))
+          refine ⟨fun c hc => ?_, fun _ j hj => ?_, fun c hc => ih.2.2 c (noteSlot_caps_mem.mpr (Or.inl hc))⟩
+          · rcases ih.1 c hc with h' | (h' | h') | h'
+            · exact Or.inl h'
+            · exact Or.inr (Or.inl h')
+            · exact Or.inr (Or.inr (by simp [explicitNumbers, h']))
+            · exact Or.inr (Or.inr (by simp [explicitNumbers, h']))
+          · simp only [explicitNumbers, List.mem_cons] at hj
+            rcases hj with rfl | hj
+            · exact ih.2.2 _ (noteSlot_caps_mem.mpr (Or.inr rfl))
+            · exact ih.2.1 (by simpa using he) j hj
       | named name =>
         have := hname name (by simpa [scanEvent] using h1)
         exact same this.1 this.2 rfl
